@@ -185,7 +185,8 @@ class Selectable:
             for t in (self.select_info.table_aliases if self.select_info else [])
             if t.aliased and t.ref_str == table
         ]
-        assert len(alias_info) <= 1
+        # NOTE: The same alias can be declared more than once (which most
+        # databases reject, but it still parses). Use the first declaration.
         return alias_info[0] if alias_info else None
 
 
